@@ -312,6 +312,23 @@ def history_cases(draw):
             c = fresh_call(draw, inputs, prev["input"], prev["alg"])
             c["param"] = prev["param"]
             calls.append(c)
+    # a call that FAILS after it has started working (complete greedy stopped by its limit before its first solution, a refused
+    # request), directly followed by a call on another input with the same names and other values (one history in four)
+    if draw(st.integers(0, 3)) == 0:
+        j = draw(st.integers(0, len(inputs) - 1))
+        base = inputs[j]
+        other = {"values": random_values(draw, len(base["values"]))[:len(base["values"])], "pres": base["pres"], "nseed": base["nseed"]}
+        other["values"] += [1] * (len(base["values"]) - len(other["values"]))
+        inputs.append(other)
+        kind = draw(st.sampled_from(["cg-stopped", "cg-stopped", "cbldm-refused", "oversize"]))
+        if kind == "cg-stopped":
+            failing = {"alg": "cg", "input": j, "outputtype": "Partition", "param": draw(st.integers(2, 3)), "ticks": draw(st.integers(1, 2))}
+        elif kind == "cbldm-refused":
+            failing = {"alg": "cbldm", "input": j, "outputtype": "Partition", "param": 3}
+        else:
+            failing = {"alg": draw(st.sampled_from(cases.PACKERS)), "input": j, "outputtype": "Partition", "param": max(1, max(base["values"]) - 1)}
+        calls.append(failing)
+        calls.append(fresh_call(draw, inputs, len(inputs) - 1, draw(st.sampled_from(algs))))
     # the caller changes a value of an input object between two calls (one history in three)
     if draw(st.integers(0, 2)) == 0:
         cands = [j for j, s_ in enumerate(inputs) if s_["pres"] in MUTABLE_PRES and any(c["input"] == j for c in calls)]
